@@ -155,7 +155,9 @@ class BoundedStream:
 
             self._bytes_remaining = content_length - len(self._buffer)
 
-        self._pos = len(self._buffer)
+        # NOTE: Nothing has been read yet; buffered data is accounted for in
+        #   tell() only once it is returned to (or discarded by) the caller.
+        self._pos = 0
 
         if first_event and self._bytes_remaining:
             # NOTE(kgriffs): Override if the event says there's no more data
